@@ -10,13 +10,13 @@
 //!     compile + run on a fresh VM
 //!     -> {"kind":"compile","span":[..],"msg":..}
 //!      | {"kind":"runtime","class":..,"trace":[{"ip":n,"span":[..]|null,"op":name,"excerpt":text|null}..],
-//!         "msg":..,"head":..,"out":..,"instrs":[[ip,opname,sl,sc,el,ec]..]}
+//!         "msg":..,"head":..,"out":..,"instrs":[[ip,opname,sl,sc,el,ec]..],"ast":[[node kind,sl,sc,el,ec]..]}
 //!      | {"kind":"ok","out":..,"instrs":[..]}
 //!      | {"panic":..,"at":..}
 use kh::script::{Capture, error_class};
 use kh::*;
 use koto_bytecode::{Chunk, CompilerSettings, DebugInfo, Instruction, InstructionReader};
-use koto_parser::{Position, Span, format_source_excerpt};
+use koto_parser::{Node, Parser, Position, Span, format_source_excerpt};
 use koto_runtime::{KotoVm, KotoVmSettings, Ptr, prelude::*};
 use serde_json::{Value, json};
 
@@ -87,6 +87,27 @@ fn decode(chunk: &Ptr<Chunk>) -> Vec<(usize, String)> {
     v
 }
 
+/// every AST node of the parsed source: [kind, sl, sc, el, ec]; kind is the Node variant
+/// (BinaryOp / UnaryOp carry their operator)
+fn ast_nodes(src: &str) -> Vec<Value> {
+    let Ok(ast) = Parser::parse(src) else { return vec![] };
+    ast.nodes()
+        .iter()
+        .map(|n| {
+            let kind = match &n.node {
+                Node::BinaryOp { op, .. } => format!("BinaryOp:{op:?}"),
+                Node::UnaryOp { op, .. } => format!("UnaryOp:{op:?}"),
+                other => {
+                    let s = format!("{other:?}");
+                    s.split(|c: char| !c.is_alphanumeric()).next().unwrap_or("").to_string()
+                }
+            };
+            let sp = ast.span(n.span);
+            json!([kind, sp.start.line, sp.start.column, sp.end.line, sp.end.column])
+        })
+        .collect()
+}
+
 fn run_case(case: &Value) -> Value {
     let src = case["src"].as_str().unwrap();
     let capture = Capture::new();
@@ -116,7 +137,7 @@ fn run_case(case: &Value) -> Value {
         })
         .collect();
     match vm.run(chunk.clone()) {
-        Ok(_) => json!({"kind": "ok", "out": capture.take(), "instrs": instrs}),
+        Ok(_) => json!({"kind": "ok", "out": capture.take(), "instrs": instrs, "ast": ast_nodes(src)}),
         Err(e) => {
             let trace: Vec<Value> = e
                 .trace
@@ -144,7 +165,7 @@ fn run_case(case: &Value) -> Value {
                 h
             };
             json!({"kind": "runtime", "class": error_class(&e), "trace": trace, "msg": e.to_string(),
-                   "head": head, "out": capture.take(), "instrs": instrs})
+                   "head": head, "out": capture.take(), "instrs": instrs, "ast": ast_nodes(src)})
         }
     }
 }
